@@ -71,7 +71,7 @@ PROPS["C15"] = {
              "(c) with a transient / persistent storage failure at every such k. Oracles: the call returns (nothing parked + live context + not returned = hang); storage calls <= ((f+1)(|rw|+2))^(d+1); "
              "after cancellation the call returns with no further storage call released and zero simulated time; after return + context release the bubble drains (synctest deadlock detection = goroutine leak, classified by blocked frame); worker process survives. "
              "non-trivial = reference derivation touches >=2 hops/rewrite edges; distinct = hash of (config, tuples, query, depth, width)."),
-    "probes": ["fault_cancel", "fault_transient", "fault_persistent", "probe_rewrite_cycle", "probe_wider_than_limit", "probe_drained_after_return"],
+    "probes": ["fault_cancel", "fault_transient", "fault_persistent", "probe_rewrite_cycle", "probe_wider_than_limit", "probe_node_with_1000_plus_subject_sets", "probe_drained_after_return"],
     "real": REAL_E, "stub": STUB_E,
     "fault_kinds": {"cancel": "request context cancelled between two storage calls", "transient": "k-th storage call fails", "persistent": "k-th and all later storage calls fail", "conflict": "k-th storage call fails with sqlcon.ErrConcurrentUpdate (retryable kind)"},
     "assumptions": ["the bound B is deliberately loose: it catches unbounded growth, not constant factors", "when a result and the cancellation are ready in the same quiescence round, either outcome is accepted (Go's select is not seedable)"],
@@ -127,11 +127,12 @@ PROPS["C04"] = {
 PROPS["C17"] = {
     "level": "exploration",
     "budget_s": {"quick": 60, "thorough": 1800},
-    "modes": [{"name": "", "runs": {"quick": 2500, "thorough": 60000}, "chunk": 100}],
+    "modes": [{"name": "", "runs": {"quick": 2500, "thorough": 60000}, "chunk": 100},
+              {"name": "fresh", "runs": {"quick": 400, "thorough": 12000}, "chunk": 25}],
     "rule": ("one run = a stored state built by 0-12 tape-generated writes, then 5-25 read/syntax requests over all 15 read entry points (REST GET/POST check with and without status mirroring, gRPC check, REST and gRPC batch check, expand, list, namespaces, OPL syntax check), "
              "valid and malformed, with names the server has never seen, unknown namespaces, odd max-depth values and bad page tokens; a quarter of the requests come from the hostile generator of C13 (mutated REST requests and gRPC messages with absent sub-messages, read and syntax endpoints only). After EACH request: the SQL-seam statement log of the request contains no INSERT/UPDATE/DELETE/REPLACE/DDL, "
-             "and a dump of keto_relation_tuples and keto_uuid_mappings through a separate unwrapped sqlite connection is identical to before. non-trivial = the protected state has rows; distinct = hash of (initial dump, request/response history)."),
-    "probes": ["reads_ok", "reads_rejected", "probe_reads_hit_database", "req_hostile-rest", "req_hostile-grpc"] + ["req_" + k for k in ["check-get", "check-get-openapi", "check-post", "check-post-openapi", "check-grpc", "batch-rest", "batch-grpc", "expand-rest", "expand-grpc", "list-rest", "list-grpc", "namespaces-rest", "namespaces-grpc", "syntax-rest", "syntax-grpc"]],
+             "and a dump of keto_relation_tuples and keto_uuid_mappings through a separate unwrapped sqlite connection is identical to before. mode 'fresh': the same on a registry created for the run, none of whose lazily built members exists yet; in half of the runs the first request it ever sees is a read, and writes keep arriving between the reads (the protected state is re-dumped after each). non-trivial = the protected state has rows; distinct = hash of (initial dump, request/response history)."),
+    "probes": ["probe_first_request_is_a_read", "probe_write_between_reads", "reads_ok", "reads_rejected", "probe_reads_hit_database", "req_hostile-rest", "req_hostile-grpc"] + ["req_" + k for k in ["check-get", "check-get-openapi", "check-post", "check-post-openapi", "check-grpc", "batch-rest", "batch-grpc", "expand-rest", "expand-grpc", "list-rest", "list-grpc", "namespaces-rest", "namespaces-grpc", "syntax-rest", "syntax-grpc"]],
     "real": REAL_S, "stub": STUB_S,
     "fault_kinds": {},
     "assumptions": ["the statement classifier at the SQL seam recognises write statements by their leading keyword"],
@@ -201,7 +202,7 @@ PROPS["C13"] = {
              "a request that was not accepted leaves the full listing equal to the model; the worker process survives (a death is re-confirmed in a fresh process). non-trivial = >=3 hostile requests; distinct = hash of the history."),
     "probes": ["hostile_rest", "hostile_grpc", "client_errors", "accepted"],
     "real": REAL_S, "stub": STUB_S,
-    "fault_kinds": {"io": "SQL statement I/O error", "busy": "database is locked", "badconn": "driver.ErrBadConn", "full": "SQLITE_FULL", "ctx": "context.Canceled"},
+    "fault_kinds": {"client-gone": "the request context is cancelled when the request issues its k-th SQL statement (REST): the client went away in the middle of the request", "io": "SQL statement I/O error", "busy": "database is locked", "badconn": "driver.ErrBadConn", "full": "SQLITE_FULL", "ctx": "context.Canceled"},
     "assumptions": ["net/http would turn an escaped handler panic into a dropped connection; the property forbids the panic itself, so it is reported"],
 }
 
